@@ -233,6 +233,15 @@ def validate_translator(ctx, n):
         scale = abs(c[0])
         k = agree(got, want, scale)
         ctx.count('translator-validation')
+        names7 = ['gauss', 'dmds', 'dmdxo', 'dmdyo', 'dmdsx', 'dmdsy', 'dmdtheta']
+        status = (ctx.extra.get('translator') or {})
+        if k is not None and status.get(names7[k], 'translated') != 'translated':
+            # this definition is the hand fallback (UNTRANSLATABLE source): a difference is a difference between
+            # the code and the model, to be explained by the search, not a translator bug
+            ctx.fail('corr', dict(kind='leaf', x=x, y=y, comp=list(c), entry=(PARS[k - 1] if k else 'model')),
+                     f"{names7[k]} (hand fallback, source untranslatable) = {float(got[k])!r} but the Python gives "
+                     f"{float(want[k])!r}", dict(site='fitting.jacobian', what='fallback-entry', entry=names7[k]))
+            continue
         if k is not None:
             raise common.LeanError(
                 "translator self-validation failed: Gen.C04." +
